@@ -232,7 +232,7 @@ def daily(ck, S, DF, RID="C09-O5"):
     okd = [x.split("::")[-1] for x in names] == ["date", "time"] and isinstance(root, dict) and is_ref_to(root, ri.params[0]["decl"])
     ck.ob(RID, sitestr(ri, calls[0]), okd, "the record's date is lmsg.time().date()" if okd else "the record's date is %s" % describe(src), key="rotateIfNeeded|message-date")
     # with daily rotation every path dates the file with the record's date, after all rotation checks
-    isdaily = lambda n: is_this_field(n, RP + "::m_rotationDaily")
+    isdaily = S.option_pred("RotationDaily", ri)
     keep = gi.projector(atom_eq(isdaily, True))
     asg = []
     for n in ri.calls():
